@@ -25,7 +25,8 @@
                                                 create_edge, get_node, get_node_property, get_edge,
                                                 get_neighbors_*, get_degree, execute (GQL templates), execute_sparql
       crates/grafeo-engine/src/database.rs      node_count, edge_count, delete_node, delete_edge, set_node_property,
-                                                remove_node_property, add_node_label, remove_node_label
+                                                remove_node_property, add_node_label, remove_node_label,
+                                                execute_cypher_with_params (+ query/processor.rs QueryProcessor::for_lpg)
 
     Finite maps are total functions ([Z -> _]) with a default; ids are allocated from counters, so every
     enumeration ranges over [0 .. counter).  Hash-map iteration order is never observable: every list
@@ -322,7 +323,10 @@ Inductive kind :=
 | TripleApi (p : pattern)           (* RdfStore::find_with_pending(p, the session's transaction) *)
 | DbCounts                          (* GrafeoDB::node_count, edge_count *)
 | StoreLabel (l : Z)                (* LpgStore::nodes_by_label (raw index) *)
-| StoreProp (n k : Z).              (* LpgStore::get_node_property (raw column) *)
+| StoreProp (n k : Z)               (* LpgStore::get_node_property (raw column) *)
+| FreshLabelScan (l : Z).           (* GrafeoDB::execute_cypher_with_params("MATCH (n:l) RETURN n"): QueryProcessor::for_lpg
+                                       builds a private TransactionManager, so the planner gets that manager's epoch (0)
+                                       and no transaction, whatever the database's own manager says *)
 
 Inductive op :=
 | Begin (s : Z) | Commit (s : Z) | Rollback (s : Z)
@@ -405,6 +409,7 @@ Definition read (st : state) (s : Z) (k : kind) : out :=
   | DbCounts => OCounts (node_count st) (edge_count st)
   | StoreLabel l => OIds (nodes_by_label st l)
   | StoreProp n k => OVal (pget k (n_props st n))
+  | FreshLabelScan l => OIds (scan st (SelLabel l) 0 SYSTEM)
   end.
 
 (** ** step *)
